@@ -26,10 +26,18 @@
    max_value <= 0, as the host does).  The former C17_message_one_row_refuted,
    C17_progress_width_refuted, C17_progress_max_refuted are replaced by the universally
    quantified statements they contradicted (C17_message_one_row, C17_progress_same_bar,
-   C17_progress_bar_within_one); the guards of the message / progress theorems are gone. *)
+   C17_progress_bar_within_one); the guards of the message / progress theorems are gone.
+
+   Host/LCDFloat.v   the binary64 arithmetic CPython really executes in LCD.progress():
+                      fl53 (nearest binary64 number, ties to even, unbounded exponent), hratio_fl,
+                      hfilled_fl = round(fl53(clamp01(fl53(value/max_value)) * width)), ptie (the
+                      exact .5 ties), hstep_fl (hstep with that arithmetic).  The section
+                      "progress bar arithmetic in binary64" below proves the four laws of the
+                      statement for it, for every bar width an LCD can have (1..40). *)
 From Coq Require Import ZArith QArith List Bool.
 From RV Require Import Base.LcdBase Host.LCD Device.DLCD Device.LCDRefine
-  Proofs.LCDHostP Proofs.LCDDevP Proofs.LCDP Proofs.LCDTop Gen.LcdTables Proofs.LCDTablesP.
+  Proofs.LCDHostP Proofs.LCDDevP Proofs.LCDP Proofs.LCDTop Gen.LcdTables Proofs.LCDTablesP
+  Host.LCDFloat Proofs.LCDFloatP Proofs.LCDFloatLawsP Proofs.LCDFloatTop.
 Import ListNotations.
 Open Scope Z_scope.
 
@@ -276,6 +284,87 @@ Theorem C17_progress_bar_within_one : forall cols value maxv width, 1 <= cols ->
   bar_gap cols value maxv width <= 1.
 Proof. exact top_progress_bar_within_one. Qed.
 Print Assumptions C17_progress_bar_within_one.
+
+
+(* ===================================================== progress bar arithmetic in binary64 *)
+(* The theorems above round the exact rational value*width/max_value.  CPython computes
+   ratio = float(value)/float(max_value) and ratio*width in binary64, each operation rounded to
+   the nearest representable number (fl53), and round()s that.  The laws of the statement hold
+   for this arithmetic as well - a wrong rounding mode, a truncation or a reordering of the
+   float operations in LCD.progress() is a different function (the harness runs hfilled_fl
+   against the real class on every bar width x max_value x value of a grid). *)
+
+(* the nearest binary64 number is within 2^-53 relative of the rational it rounds *)
+Theorem C17_fl53_error : forall q : Q, (0 <= q)%Q ->
+  (q - q * (1 # 9007199254740992) <= fl53 q /\ fl53 q <= q + q * (1 # 9007199254740992))%Q.
+Proof. exact fl53_nonneg_err. Qed.
+Print Assumptions C17_fl53_error.
+
+(* identical on both sides whenever value*width is a multiple of max_value: every value, every
+   max_value (also <= 0), every bar width *)
+Theorem C17_progress_float_exact : forall v m w, 1 <= w <= 40 -> (m | v * w) ->
+  hfilled_fl v m w = dfilled v m w.
+Proof. exact top_fl_exact. Qed.
+Print Assumptions C17_progress_float_exact.
+
+(* never more than one cell apart (and the host never below the firmware) *)
+Theorem C17_progress_float_within_one : forall v m w, 1 <= w <= 40 ->
+  0 <= hfilled_fl v m w - dfilled v m w <= 1.
+Proof. exact top_fl_within_one. Qed.
+Print Assumptions C17_progress_float_within_one.
+
+Theorem C17_progress_float_saturates : forall v m w, 1 <= w <= 40 ->
+  0 <= hfilled_fl v m w <= w /\ (v <= 0 \/ m <= 0 -> hfilled_fl v m w = 0) /\ (0 < m <= v -> hfilled_fl v m w = w).
+Proof. exact top_fl_saturates. Qed.
+Print Assumptions C17_progress_float_saturates.
+
+(* monotone in value; guard: max_value below 2^45 (the proof uses only the error bound of
+   fl53: two different exact quotients are at least 1/max_value apart) *)
+Theorem C17_progress_float_monotone_partial : forall v1 v2 m w, 1 <= w <= 40 -> m < 2 ^ 45 -> v1 <= v2 ->
+  hfilled_fl v1 m w <= hfilled_fl v2 m w.
+Proof. exact top_fl_monotone. Qed.
+Print Assumptions C17_progress_float_monotone_partial.
+
+(* off the exact .5 ties binary64 and exact-rational rounding give the same bar ... *)
+Theorem C17_progress_float_faithful_partial : forall v m w, 1 <= w <= 40 -> 0 < m < 2 ^ 45 ->
+  ptie v m w = false -> hfilled_fl v m w = hfilled v m w.
+Proof. exact top_fl_faithful. Qed.
+Print Assumptions C17_progress_float_faithful_partial.
+
+(* ... at a tie they need not: 15/22 of 11 cells is 7.5 exactly, the exact rounding gives 8,
+   binary64 7 (and so does CPython; both are within one cell of the firmware's 7) *)
+Theorem C17_progress_float_tie_differs :
+  exists v m w, 1 <= w <= 40 /\ 0 < m < 2 ^ 45 /\ ptie v m w = true /\
+    hfilled_fl v m w <> hfilled v m w /\ hfilled_fl v m w = dfilled v m w.
+Proof. exists 15, 22, 11. vm_compute. repeat split; try discriminate; intro H; discriminate H. Qed.
+Print Assumptions C17_progress_float_tie_differs.
+
+(* a whole progress call with the binary64 arithmetic, value*width a multiple of max_value:
+   the display shows the host buffer afterwards *)
+Theorem C17_progress_refines_float : forall h d row value maxv width style label,
+  fitsb (d_g d) = true -> shows h d -> 0 <= row < d_rows d -> style_ok style = true -> ascii label ->
+  (maxv | value * hwidth (d_cols d) width) ->
+  exists h' d', hstep_fl h (OProgress row value maxv width style label) = (h', HOk) /\
+                dstep d (OProgress row value maxv width style label) = Some d' /\ shows h' d'.
+Proof. exact top_progress_refines_float. Qed.
+Print Assumptions C17_progress_refines_float.
+
+(* every other call is the same function *)
+Theorem C17_float_other_calls : forall h op,
+  (forall row value maxv width style label, op <> OProgress row value maxv width style label) ->
+  hstep_fl h op = hstep h op.
+Proof. exact hstep_fl_other. Qed.
+Print Assumptions C17_float_other_calls.
+
+(* non-vacuity: the fractions a truncating host loses (15/22 of 22 cells is 14.999999999999998
+   in binary64 before round()), a non-multiple, and 0.1 as a binary64 number *)
+Example C17_ex_float :
+  hfilled_fl 15 22 22 = 15 /\ hfilled_fl 13 23 23 = 13 /\ hfilled_fl 45 78 26 = 15 /\ hfilled_fl 31 39 39 = 31 /\
+  hfilled_fl 1 2 3 = 2 /\ dfilled 1 2 3 = 1 /\ ptie 1 2 3 = true /\ ptie 15 22 22 = false /\
+  (fl53 (1 # 10) = 3602879701896397 # 36028797018963968)%Q /\
+  (fl53 (hratio_fl 15 22 * inject_Z 22) == 8444249301319679 # 562949953421312)%Q.
+Proof. vm_compute. repeat split. Qed.
+Print Assumptions C17_ex_float.
 
 (* ===================================================== backlight *)
 
